@@ -212,7 +212,7 @@ func c11GenOpsL(r *core.Rand, ctx string, depth int, allowCmd, inLoop bool) []c1
 			op.K = r.Range(1, 4)
 			// ("-" is not assigned at run time: a second "-" operand would put a second buffered
 			// scanner on standard input, and which one gets which bytes no property specifies)
-			op.Name = core.Pick(r, []string{"f1", "f2", "", "v=5", "f3"})
+			op.Name = core.Pick(r, []string{"f1", "f2", "", "v=5", "f3", "0"})
 		case "argv-del":
 			op.K = r.Range(1, 4)
 		case "argc-set":
@@ -329,14 +329,14 @@ func (c11Engine) Gen(r *core.Rand, tier string, i int) any {
 		sc.HasEnd = true
 		sc.End = c11GenOps(r, "end", 0, allowCmd)
 	}
-	for _, name := range []string{"f1", "f2", "f3", "g1", "g2", "1=x", "/dev/stdin"} {
+	for _, name := range []string{"f1", "f2", "f3", "g1", "g2", "1=x", "/dev/stdin", "0"} {
 		data := c11GenData(r)
 		sc.Files = append(sc.Files, c11File{Name: name, Data: data, D: genDelivery(r, len(data))})
 	}
 	sc.Stdin = c11GenData(r)
 	sc.StdinD = genDelivery(r, len(sc.Stdin))
 	if r.Chance(3, 4) {
-		ops := []string{"f1", "f2", "f3", "f1", "", "v=7", "v=3", "fmissing", "NR=10", "1=x", "/dev/stdin"}
+		ops := []string{"f1", "f2", "f3", "f1", "", "v=7", "v=3", "fmissing", "NR=10", "1=x", "/dev/stdin", "0"}
 		dash := false
 		for n := r.Range(1, 5); n > 0; n-- {
 			o := core.Pick(r, ops)
